@@ -380,12 +380,13 @@ PROPS["C17"] = dict(
 
 PROPS["C10"] = dict(
     title="Cancel ends both sides and never leaves a partial file",
-    module="Cfdp.Props.C10p",
+    module="Cfdp.Props.C02z",
     namespace="Cfdp.Loop",
     theorems=["C10_no_partial", "C10_cancel_freezes", "Cfdp.Recv.C10_recv_cancel", "Cfdp.Recv.C10_recv_peer_cancel",
               "Cfdp.Recv.C10_recv_cancel_ends", "Cfdp.Send.C10_send_cancel", "Cfdp.Send.C10_send_cancel_ends",
               "Cfdp.Net.C10_two_party_sender_cancel", "Cfdp.Net.C10_two_party_receiver_cancel",
-              "C10_lost_cancel_eof_round", "C10_lost_cancel_finished_round"],
+              "C10_lost_cancel_eof_round", "C10_lost_cancel_finished_round",
+              "C10_cancel_eof_repeated", "C10_lost_cancel_eofs_round", "C10_lost_cancel_finisheds_round"],
     engines=["recv", "send", "daemon"],
     design="§6 C10",
     technique="Lean 4 proofs over the receiver / sender models and the task-loop step (filestore frame + cancel handshake steps), composed through both models and the link for a cancel at either entity + differential correspondence",
@@ -397,14 +398,14 @@ PROPS["C10"] = dict(
                 "an EOF with an error condition cancels the receiver with that condition (C10_recv_peer_cancel); the cancelled receiver ends on ACK(Finished) or by Abandon "
                 "at the positive-ACK limit (C10_recv_cancel_ends); a user cancel at the sender = Cancelled phase and an EOF with condition CancelReceived and the sender's "
                 "entity id as fault location queued (C10_send_cancel), transmitted when the link is free, and the sender ends by Abandon at the ACK / inactivity limit "
-                "(C10_send_cancel_ends). Bounded time of those ends: C17 + C03. The two-party statement is a theorem over the composition of both models and the link (Model/Net.lean; Props/C10n.lean, Props/C10o.lean): in acknowledged mode, from ANY pair of live states - whatever history of the transfer led to them, whatever is still in flight - the handshake over a link that loses nothing from the cancel on (sender: Cancel.request, EOF(cancel) transmitted and delivered, ACK(EOF) and Finished transmitted, Finished delivered, ACK(Finished) transmitted and delivered; receiver: Cancel.request, Finished transmitted and delivered, ACK(Finished) transmitted and delivered) ends BOTH transactions, both with condition CancelReceived, both users get a Finished indication carrying it, and the receiver's filestore is as it was when the cancel took effect (C10_two_party_sender_cancel, C10_two_party_receiver_cancel; eight step lemmas, one per loop iteration of the handshake). Under a single loss (Props/C10p.lean): a lost EOF(cancel) is repeated by the cancelled sender's positive-ACK timer and cancels the receiver when it arrives (cancel_eof_timer_resends, C10_lost_cancel_eof_round); a lost Finished PDU of a cancelled receiver - or a lost ACK of it - is repeated by the receiver's positive-ACK timer, ends the sender, and the sender's ACK ends the receiver (cancelled_timer_resends, C10_lost_cancel_finished_round). Under more losses the retransmission and limit theorems above apply. Tie to the code: recv/send engines with cancel injected before/after every PDU."),
+                "(C10_send_cancel_ends). Bounded time of those ends: C17 + C03. The two-party statement is a theorem over the composition of both models and the link (Model/Net.lean; Props/C10n.lean, Props/C10o.lean): in acknowledged mode, from ANY pair of live states - whatever history of the transfer led to them, whatever is still in flight - the handshake over a link that loses nothing from the cancel on (sender: Cancel.request, EOF(cancel) transmitted and delivered, ACK(EOF) and Finished transmitted, Finished delivered, ACK(Finished) transmitted and delivered; receiver: Cancel.request, Finished transmitted and delivered, ACK(Finished) transmitted and delivered) ends BOTH transactions, both with condition CancelReceived, both users get a Finished indication carrying it, and the receiver's filestore is as it was when the cancel took effect (C10_two_party_sender_cancel, C10_two_party_receiver_cancel; eight step lemmas, one per loop iteration of the handshake). Under a single loss (Props/C10p.lean): a lost EOF(cancel) is repeated by the cancelled sender's positive-ACK timer and cancels the receiver when it arrives (cancel_eof_timer_resends, C10_lost_cancel_eof_round); a lost Finished PDU of a cancelled receiver - or a lost ACK of it - is repeated by the receiver's positive-ACK timer, ends the sender, and the sender's ACK ends the receiver (cancelled_timer_resends, C10_lost_cancel_finished_round). Under repeated loss (Props/C02z.lean) the expiries concatenate as long as the clock keeps the counters below their limits (FairT; the limits are derived from it): the cancelled sender transmits that same EOF(cancel) after every expiry and stays cancelled and waiting (C10_cancel_eof_repeated), whichever retransmission gets through cancels the receiver (C10_lost_cancel_eofs_round); the cancelled receiver transmits that same Finished PDU after every expiry, whichever gets through ends the sender with the cancel condition, whose ACK ends the receiver (C10_lost_cancel_finisheds_round). At the limit the transactions end by C10_send_cancel_ends / C10_recv_cancel_ends. Tie to the code: recv/send engines with cancel injected before/after every PDU."),
     level_note=RECV_SEND_NOTE + " Both-sides-end over a real link (two daemons) is exercised by the daemon engine (C02/C11) when registered; here each side is proved separately.",
     rule=("daemon engine (two real daemons): in every third multi-transaction scenario one acknowledged six-segment transfer is cancelled through its daemon (UserPrimitive::Cancel) right after its Put - oracles daemon_cancel (the sender reports CancelReceived or, when the receiver had completed before the cancel took effect, has at least transmitted its EOF(Cancel received)), daemon_cancel_no_file, daemon_cancel_ends; or it is cancelled at the RECEIVING daemon 100 ms after the Put while every EOF of that sender stays on the link for 450 ms - oracle daemon_cancel_recv (receiver and sender both report CancelReceived, nothing under the destination name, both ended); the other transactions must be unaffected (C11 others_unaffected). recv + send engines as in C04/C07: one history in three contains a user request at a random position (cancel / suspend-resume / EOF(cancel) from the peer / report), "
           "followed by losses of the handshake PDUs (wind-down rounds without answers) or the ACK at a random round. Oracles no_partial (filestore listing before/after every "
           "step), cancel_closure_finished. Non-trivial = a PDU was emitted or an indication raised."),
     assumptions=["C10_no_partial second part: the handler configured for CheckLimitReached is not Ignore (with Ignore an incomplete unacknowledged transfer is stored on purpose, "
                  "with delivery code Incomplete - finding F31)"],
-    unproved=["the two-party theorems cover the handshake over a link that loses nothing once the cancel is issued; that every fair schedule with losses within the limits also ends both sides with the cancel condition is checked by the net / daemon engines (and bounded by the limit theorems), not composed into one theorem"],
+    unproved=["the two-party theorems cover the handshake over a link that loses nothing once the cancel is issued, and each handshake PDU lost up to limit-1 times in a row (C10_lost_cancel_eofs_round, C10_lost_cancel_finisheds_round); losses of several different PDUs interleaved in one schedule are checked by the net / daemon engines (and bounded by the limit theorems), not composed into one theorem"],
 )
 
 PROPS["C13"] = dict(
@@ -589,13 +590,14 @@ PROPS["C11"] = dict(
 
 PROPS["C02"] = dict(
     title="Acknowledged mode recovers from any bounded loss, duplication and reordering",
-    module="Cfdp.Props.C02y",
+    module="Cfdp.Props.C02z",
     namespace="Cfdp.Seg",
     theorems=["C02_round_completes", "C02_gaps_answered", "Cfdp.Recv.C02_finishes_when_complete", "Cfdp.Recv.C02_never_waits_complete", "Cfdp.Recv.C02_complete_is_success", "Cfdp.Recv.C02_size_check_passes", "Cfdp.Loop.C02_no_integrity_fault", "Cfdp.Net.C02_two_party_no_integrity_fault", "Cfdp.Loop.C02_recv_completes", "Cfdp.Loop.C02_send_completes", "Cfdp.Net.C02_two_party_completes",
               "Cfdp.Loop.C02_sender_answers_nak", "Cfdp.Loop.C02_receiver_recovers", "Cfdp.Loop.C02_recovery_round",
               "Cfdp.Loop.C02_full_round", "Cfdp.Loop.C02_full_round_after_wake", "Cfdp.Loop.C02_timer_round",
               "Cfdp.Loop.C02_lost_eof_round", "Cfdp.Loop.C02_lost_finished_round", "Cfdp.Loop.C02_lost_metadata_round",
-              "Cfdp.Loop.C02_lossy_rounds", "Cfdp.Loop.C02_lossy_rounds_fair", "Cfdp.Loop.C02_two_party_nak_loop"],
+              "Cfdp.Loop.C02_lossy_rounds", "Cfdp.Loop.C02_lossy_rounds_fair", "Cfdp.Loop.C02_two_party_nak_loop",
+              "Cfdp.Loop.C02_eof_repeated", "Cfdp.Loop.C02_lost_eofs_round", "Cfdp.Loop.C02_lost_finisheds_round"],
     engines=["daemon", "recv", "send", "net"],
     design="§6 C02",
     technique="Lean 4 proofs of the recovery steps and of whole single-loss recovery rounds (lost data, EOF, Finished / ACK, Metadata) through both transaction models and the link, and of the receiver's NAK loop over any fair lossy schedule (any number of lossy rounds, limits derived from fairness); the whole transfer over a lossy schedule of both models is checked on two real daemons under a virtual clock with bounded fault plans",
@@ -647,9 +649,16 @@ PROPS["C02"] = dict(
                 "are handed to the sender, which stays able to answer (sq_round, invariant SQ) and whose transmissions are what the link may deliver, any part of them, in any order, "
                 "with duplicates; a round in which nothing is lost carries every missing byte (clean_round_carries); so any number of lossy rounds within the fairness condition with "
                 "one clean round among them ends with the delivery reported Finished / NoError / Complete / Retained (C02_two_party_nak_loop; example: the NAKs of the first round are all lost). "
-                "PARTIAL: the loop theorems cover the data-recovery phase (EOF handshake done: only file data and Metadata reach the receiver, only NAKs reach the sender); the lossy "
-                "EOF / Finished / Metadata handshakes are single-loss rounds (above), not loops; the sender's own timers are not events of the two-party loop (its inactivity limit while "
-                "it waits for NAKs is bounded by C03 / C17). The composition of all phases over one lossy fair schedule of both models is not one theorem. It is checked on the real code: the daemon engine runs acknowledged transfers between two real daemons with every kind of fault "
+                "The EOF and Finished handshakes under REPEATED loss are loops as well (Props/C02z.lean): the whole state after 'expiry of the positive-ACK timer, then transmission' is "
+                "characterised (eof_round_state, fin_round_state), so expiries concatenate as long as the clock keeps the counters below their limits (FairT: every expiry serviced within "
+                "the following period, fewer than limit of them in all, less than limit inactivity periods since the last PDU of the peer - the limits are derived, not assumed): the "
+                "sender transmits that same EOF after every expiry and goes on waiting (C02_eof_repeated), and whichever retransmission gets through completes the delivery at a receiver "
+                "holding everything else (C02_lost_eofs_round); the receiver transmits that same Finished PDU after every expiry, and whichever gets through ends the sender with the "
+                "receiver's outcome, whose ACK ends the receiver (recv_finished_repeated, C02_lost_finisheds_round) - which is the property's 'fewer than limit consecutive losses of a "
+                "PDU'. "
+                "PARTIAL: the loop theorems are per phase (data recovery with the EOF handshake done; EOF handshake with the data complete; Finished handshake); a lost Metadata PDU is a "
+                "single-loss round; the sender's own timers are not events of the two-party NAK loop (its inactivity limit while it waits for NAKs is bounded by C03 / C17). The "
+                "composition of all phases over one lossy fair schedule of both models is not one theorem. It is checked on the real code: the daemon engine runs acknowledged transfers between two real daemons with every kind of fault "
                 "plan below the limit and requires file identity, success at both users and termination of both transactions (oracles recovers, same_outcome, daemon_bounded); the net engine does the same on a real sender and a real receiver in lockstep with both Lean models (losses confined to a zero-time phase, then a loss-free link)."),
     level_note=DAEMON_NOTE + " " + RECV_SEND_NOTE,
     rule=("daemon engine: 40 (quick) / 400 (thorough) acknowledged transfers, files of 0, 1, seg-1, seg, seg+1, 3 seg, 5 seg+7 octets, segment 32/64/128, limit 3/4, timeouts 1-3 s, "
@@ -658,5 +667,5 @@ PROPS["C02"] = dict(
           "per-side steps. Non-trivial = a routing line with at least one delivered PDU / a PDU emitted."
           " net engine (300 quick / 3000 thorough two-party histories): one real SendTransaction and one real RecvTransaction joined by a simulated link that delivers only PDUs the other side emitted (in order, lost, duplicated, reordered, as stragglers), random schedules of transmissions, deliveries, timer expiries and user requests at both sides, then a loss-free fair phase on the shared virtual clock until both have ended; every call is answered in lockstep by the Lean sender and receiver models (ops net s / net r), the per-side oracles of the send / recv engines keep running, and two-party oracles are added: C02 recovers / same_outcome (acknowledged mode, losses confined to a zero-time phase, default handlers: both sides report success), C03 net_bounded / net_never_stuck, C04 sender_success_only_after_receiver, C01 two_party_file."),
     assumptions=["bounded faults: fewer than `limit` faults per transfer, delays below the timers (as the property states)"],
-    unproved=["one theorem for the whole transfer over a lossy fair schedule of both models and the link: proved are 'delivery implies completion' (receiver and two-party model), every single-loss round (lost data, EOF, Finished / ACK, Metadata) through both models and the link, and the receiver's NAK loop over any fair lossy schedule (C02_lossy_rounds_fair: any number of lossy rounds, limits derived from fairness); the EOF / Finished / Metadata handshakes under repeated loss and the sender's side of the loop (its inactivity limit while it answers) are bounded by C03 / C17 and checked dynamically by the daemon and net engines"],
+    unproved=["one theorem for the whole transfer over a lossy fair schedule of both models and the link: proved are 'delivery implies completion' (receiver and two-party model), every single-loss round (lost data, EOF, Finished / ACK, Metadata) through both models and the link, and the NAK loop over any fair lossy schedule (C02_lossy_rounds_fair, C02_two_party_nak_loop: limits derived from fairness) and the EOF / Finished retransmission loops up to the limit (C02_lost_eofs_round, C02_lost_finisheds_round) - each phase on its own; interleavings of the phases (a NAK loop while the EOF is still unacknowledged), a Metadata PDU lost repeatedly and the sender's inactivity limit while it waits for NAKs are bounded by C03 / C17 and checked dynamically by the daemon and net engines"],
 )
